@@ -1062,6 +1062,51 @@ pub fn c10_closed_unanswered_counts(rec: &mut Rec, rng: &mut Rng, leave: usize) 
     sim.w.teardown();
 }
 
+/// at capacity, one client shuts down only its READ side and sends a request: the write of the answer fails (EPIPE)
+/// without any hang-up event. That connection is dead — closed by the server, its output discarded — and must be
+/// released once answered, so that a further client is accepted (not refused with the 503).
+pub fn c10_failed_write_frees_slot(rec: &mut Rec, rng: &mut Rng, requests: usize) {
+    rec.case("capacity-failed-write");
+    rec.nontrivial();
+    let mut cfg = Cfg::base("C10");
+    cfg.max_clients = 13;
+    let mut sim = Sim::new(rec, cfg);
+    for _ in 0..10 {
+        sim.connect(rec);
+        sim.poll(rec);
+    }
+    sim.w.shutdown(rec, 0, Shutdown::Read);
+    for _ in 1..requests {
+        sim.plan_request(rng, 0);
+    }
+    sim.send_next(rec, rng, 0);
+    while !sim.plans[0].outq.is_empty() {
+        sim.send_next(rec, rng, 0);
+    }
+    for _ in 0..4 {
+        sim.poll(rec);
+    }
+    while !sim.w.held.is_empty() {
+        sim.respond(rec, rng, 0);
+        sim.poll(rec);
+    }
+    for _ in 0..4 {
+        sim.poll(rec);
+    }
+    release_check(rec, &mut sim, "C10");
+    let y = sim.connect(rec);
+    for _ in 0..3 {
+        sim.poll(rec);
+    }
+    sim.w.client_read(rec, y);
+    if sim.w.clients[0].write_failed && (!sim.w.clients[y].accepted || sim.w.clients[y].refused) {
+        rec.oracle_fail("C10", "9 live connections and one that died by a failed write (answered): a further client was refused", &sim.w.log);
+    }
+    sim.settle(rec, rng);
+    common_checks(rec, &mut sim, "C10");
+    sim.w.teardown();
+}
+
 /// at capacity, several clients are already waiting in the listener's backlog when a client with an unanswered
 /// request leaves; the application answers between two polls. Each waiting client must end up either refused with
 /// the complete 503 message or accepted and served — never cut off with nothing (the batch of one poll can hold the
@@ -1131,6 +1176,9 @@ pub fn c10(rec: &mut Rec, rng: &mut Rng, thorough: bool) {
     regress_f3(rec, rng);
     for leave in 0..3 {
         c10_closed_unanswered_counts(rec, rng, leave);
+    }
+    for requests in 1..=2 {
+        c10_failed_write_frees_slot(rec, rng, requests);
     }
     for waiting in 1..=3 {
         for before in [false, true] {
@@ -1223,6 +1271,9 @@ pub fn c10(rec: &mut Rec, rng: &mut Rng, thorough: bool) {
                             sim.w.client_read(rec, i);
                         }
                     }
+                    // (every third departure is a client that only shuts its READ side down: the next write to it fails
+                    // with EPIPE and no hang-up event is ever raised for it)
+                    _ if rng.chance(1, 3) && !sim.w.clients[i].rd_shut => sim.w.shutdown(rec, i, Shutdown::Read),
                     _ => sim.w.close(rec, i),
                 }
             }
@@ -1242,6 +1293,8 @@ pub fn c10(rec: &mut Rec, rng: &mut Rng, thorough: bool) {
                 }
             }
             sim.settle(rec, rng);
+            // everything is answered: whoever left, hung up or had a write fail is released
+            release_check(rec, &mut sim, "C10");
             // capacity regained: a later connect is accepted
             let j = sim.connect(rec);
             sim.settle(rec, rng);
